@@ -159,8 +159,8 @@ def run_lines1(cmd, lines, timeout=900, env=None, cwd=None):
         return outs, 'exit=%s, %d lines for %d cases; stderr: %s' % (p.returncode, len(outs), len(lines), p.stderr[-2000:])
     return outs, None
 
-def run_per_process(cmd, lines, timeout=60, jobs=16, env=None):
-    """one fresh process per case line (process-global state)"""
+def run_per_process(cmd, lines, timeout=60, jobs=16, env=None, marks=None):
+    """one fresh process per case line (process-global state); `marks`: (substring of stderr, token appended to the output)"""
     from concurrent.futures import ThreadPoolExecutor
     def one(l):
         try:
@@ -171,6 +171,8 @@ def run_per_process(cmd, lines, timeout=60, jobs=16, env=None):
         o = p.stdout.strip('\n')
         if p.returncode != 0:
             return 'CRASH exit=%s %s | %s' % (p.returncode, o.replace('\n', ' / '), p.stderr.strip()[-300:].replace('\n', ' / '))
+        for sub, tok in (marks or []):
+            if sub in p.stderr: o += ' ' + tok
         return o
     with ThreadPoolExecutor(max_workers=jobs) as ex:
         return list(ex.map(one, lines)), None
@@ -244,7 +246,7 @@ def exec_stream(pid, st, cases):
     if getattr(st, 'env', None):
         env = dict(os.environ); env.update(st.env)
     if st.per_process:
-        impl, err = run_per_process(cmd, cases, env=env)
+        impl, err = run_per_process(cmd, cases, env=env, marks=getattr(st, 'stderr_marks', None))
     else:
         impl, err = run_lines(cmd, cases, env=env)
     return impl, err
@@ -382,13 +384,15 @@ def run_check(pid, mod, tier, seed, replay):
             res.errors.append('%s: executor: %s' % (st.name, err))
             # find the crashing case by bisection is left to per-process streams
             continue
-        model, err = driver(pid, st.mode, cases)
+        # (an executor-level operation may stand for several operations of the model: `model_case` rewrites the case for the drivers)
+        mcases = [st.model_case(c) for c in cases] if getattr(st, 'model_case', None) else cases
+        model, err = driver(pid, st.mode, mcases)
         if err:
             res.errors.append('%s: driver: %s' % (st.name, err))
             continue
         spec = None
         if st.spec_mode:
-            spec, err = driver(pid, st.spec_mode, cases)
+            spec, err = driver(pid, st.spec_mode, mcases)
             if err:
                 res.errors.append('%s: driver(%s): %s' % (st.name, st.spec_mode, err)); continue
         verdicts = None
@@ -530,7 +534,7 @@ def _fails(pid, stream, case, against):
     mode = stream.mode if against == 'model' else stream.spec_mode
     if mode is None:
         return None
-    ref, err = driver(pid, mode, [case])
+    ref, err = driver(pid, mode, [stream.model_case(case) if getattr(stream, 'model_case', None) else case])
     if err:
         return None
     r = stream.canon(ref[0])
